@@ -602,7 +602,10 @@ func (s *Server) serveListReposErr(q query.Q, qStr string, r *http.Request) (*Re
 		for _, b := range r.Repository.Branches {
 			var buf bytes.Buffer
 			if err := t.Execute(&buf, b); err != nil {
-				return nil, err
+				// Same as for the file URL templates: a template that cannot be
+				// executed yields no link instead of failing the whole page.
+				log.Printf("commit url template: %v", err)
+				buf.Reset()
 			}
 			repo.Branches = append(repo.Branches,
 				Branch{
